@@ -723,6 +723,20 @@ class Message:
             # info would otherwise stay in the remote's hostinfo)
             raise error.MalformedUrlError("User name and password not supported.")
 
+        if "[" in parsed.netloc or "]" in parsed.netloc:
+            # urllib takes whatever stands between the first pair of brackets
+            # for the host and ignores any text next to it ("a[::1]",
+            # "[::1]a:7"); an IP literal is the complete host or none at all
+            literal, _, port = parsed.netloc.partition("]")
+            if (
+                not literal.startswith("[")
+                or "[" in literal[1:]
+                or port[:1] not in ("", ":")
+            ):
+                raise error.MalformedUrlError(
+                    "An IP literal in brackets needs to be the complete host"
+                )
+
         try:
             if parsed.path not in ("", "/"):
                 # FIXME: This tolerates incomplete % sequences.
